@@ -172,6 +172,8 @@ def run_object(case, all_sync):
     clk = V.VClock()
     encoding = case.get('encoding')
     p, write, finish, ctl, cleanup = make_peer(case['kind'], clk, encoding)
+    if case.get('objW') is not None:
+        p.searchwindowsize = case['objW'] or None
     t = 0.0
     sched = []
     for a in case['arrivals']:
@@ -220,24 +222,26 @@ def run_object(case, all_sync):
             n0 = len(log)
             rec = dict(t0=clk.now)
             pats = pats_real(op, encoding)
+            # a search window given with the call (0 = None) overrides the object's own; absent: the object's
+            wkw = {'searchwindowsize': (op['W'] or None)} if 'W' in op else {}
             try:
                 if op['mode'] == 'c' and not all_sync:
                     # the caller gives up on its own (outer wait_for): the awaited call is cancelled, not timed out
-                    inner = p.expect_exact(pats, timeout=op['T'] + 5, async_=True) if op['k'] == 'x' else p.expect_list(pats, timeout=op['T'] + 5, async_=True)
+                    inner = p.expect_exact(pats, timeout=op['T'] + 5, async_=True, **wkw) if op['k'] == 'x' else p.expect_list(pats, timeout=op['T'] + 5, async_=True, **wkw)
                     try:
                         i = await asyncio.wait_for(inner, op['T'])
                     except asyncio.TimeoutError:
                         raise Cancelled()
                 elif op['mode'] == 'a' and not all_sync:
                     if op['k'] == 'x':
-                        i = await p.expect_exact(pats, timeout=op['T'], async_=True)
+                        i = await p.expect_exact(pats, timeout=op['T'], async_=True, **wkw)
                     else:
-                        i = await p.expect_list(pats, timeout=op['T'], async_=True)
+                        i = await p.expect_list(pats, timeout=op['T'], async_=True, **wkw)
                 else:
                     if op['k'] == 'x':
-                        i = p.expect_exact(pats, timeout=op['T'])
+                        i = p.expect_exact(pats, timeout=op['T'], **wkw)
                     else:
-                        i = p.expect_list(pats, timeout=op['T'])
+                        i = p.expect_list(pats, timeout=op['T'], **wkw)
                 rec['out'] = 'idx %d' % i
             except EOF:
                 rec['out'] = 'EOF'
@@ -361,7 +365,7 @@ def model_line(case, run):
     toks = ['AY']
     for op in case['ops'][:len(run['recs'])]:
         pats = '+'.join(X.pat_tok(q, op) for q in op['pats']) if op['pats'] else '_'
-        toks.append('%s%s:0:%s' % ('a' if op['mode'] in ('a', 'c') else '', op['k'], pats))
+        toks.append('%s%s:%d:%s' % ('a' if op['mode'] in ('a', 'c') else '', op['k'], (op['W'] if 'W' in op else (case.get('objW') or 0)), pats))
     toks.append('@')
     eof_seen = False
     for ev in run['log']:
@@ -420,6 +424,8 @@ def rand_case(rng, allow_t0=False):
     alph = 'abxy\n'
     nops = rng.randrange(1, 5)
     ops, plants = [], []
+    windows = rng.random() < 0.35            # search windows: the object's own and / or one given with the call
+    objW = rng.choice([None, None, 0, 2, 4]) if windows else None
     for _ in range(nops):
         k = rng.choice('xxr')
         pats = []
@@ -439,6 +445,8 @@ def rand_case(rng, allow_t0=False):
         if allow_t0 and rng.random() < 0.15:
             tmo = 0
         ops.append(dict(mode=rng.choice('aaas'), k=k, pats=pats, T=tmo, gap=rng.choice([0, 0, 0, 0.2, 0.5, 1.0])))
+        if windows and rng.random() < 0.6:
+            ops[-1]['W'] = rng.choice([0, 1, 2, 3, 5])
     # arrivals on a 0.1 grid (timeouts are off-grid): text with planted occurrences
     narr = rng.randrange(0, 7)
     arrivals = []
@@ -450,7 +458,7 @@ def rand_case(rng, allow_t0=False):
         arrivals.append([dt, 'w', text])
     if rng.random() < 0.5:
         arrivals.append([rng.choice([0.0, 0.1, 0.3, 0.6]), 'c'])
-    return dict(kind=kind, arrivals=arrivals, ops=ops)
+    return dict(kind=kind, arrivals=arrivals, ops=ops, **({'objW': objW} if objW is not None else {}))
 
 
 def unicode_case(rng):
@@ -488,6 +496,11 @@ def cancel_case(rng):
 
 
 CORPUS = [
+    # a search window given with the call, different from the object's own, on the awaited path
+    dict(kind='fd', arrivals=[[0.1, 'w', 'MARKxxxxxxxxxxxxxxxxxxxx'], [0.2, 'c']],
+         ops=[dict(mode='a', k='x', pats=[['s', 'MARK'], ['E']], T=1.043, gap=0.3, W=5)]),
+    dict(kind='fd', objW=3, arrivals=[[0.1, 'w', 'MARKxxxxxxxxxxxxxxxxxxxx'], [0.2, 'c']],
+         ops=[dict(mode='a', k='x', pats=[['s', 'MARK'], ['E']], T=1.043, gap=0.3, W=0)]),
     # the caller abandons an awaited call; the text it was waiting for arrives afterwards and belongs to the next call
     dict(kind='fd', arrivals=[[0.1, 'w', 'one '], [0.5, 'w', 'two PROMPT three']],
          ops=[dict(mode='c', k='x', pats=[['s', 'PROMPT']], T=0.337, gap=0), dict(mode='a', k='x', pats=[['s', 'three']], T=1.043, gap=0.5)]),
